@@ -1049,6 +1049,58 @@ fn client_case(_t: Tier) -> impl Strategy<Value = ClientCase> {
     (any::<bool>(), alg(), any::<bool>(), any::<u16>(), edit).prop_map(|(update, alg, edns, id, edit)| ClientCase { update, alg, edns, id, edit })
 }
 
+/// one edit of the genuine reply; None when the harness cannot place the edit
+fn apply_edit(edit: &ReplyEdit, genuine: &[u8], r: &Reply, req_mac: &[u8], key: &Key) -> Result<Option<(Vec<u8>, &'static str)>, Fail> {
+    let mut wire = genuine.to_vec();
+    let mut label = "none";
+    match edit {
+        ReplyEdit::None => {}
+        ReplyEdit::BitFlip(p) => {
+            let bit = *p as usize % (wire.len() * 8);
+            wire[bit / 8] ^= 1 << (7 - bit % 8);
+            label = "bit-flip";
+        }
+        ReplyEdit::ByteSet(p, v) => {
+            let i = *p as usize % wire.len();
+            if wire[i] == *v {
+                wire[i] ^= 0xff;
+            } else {
+                wire[i] = *v;
+            }
+            label = "byte-set";
+        }
+        ReplyEdit::TsigRemoved => {
+            wire.truncate(r.tsig_start);
+            let ar = u16::from_be_bytes([wire[10], wire[11]]).saturating_sub(1);
+            wire[10..12].copy_from_slice(&ar.to_be_bytes());
+            label = "tsig-removed";
+        }
+        ReplyEdit::ResignedWrongSecret | ReplyEdit::ResignedWrongRequestMac => {
+            let Some(t) = &r.tsig else {
+                vfail!("reply-to-signed-request-not-signed", "reply {}", crate::core::hexser::to_hex(genuine));
+            };
+            let (secret, rmac): (&[u8], Vec<u8>) = if matches!(edit, ReplyEdit::ResignedWrongSecret) { (SX, req_mac.to_vec()) } else { (S1, req_mac.iter().map(|b| b ^ 0x55).collect()) };
+            let Ok(p) = tsig_ref::parse(genuine) else { vfail!("harness-reply-unparseable", "{}", crate::core::hexser::to_hex(genuine)) };
+            let rr = p.rrs.last().unwrap();
+            let d = tsig_ref::response_digest(&rmac, genuine, rr.start, t);
+            let mac = tsig_ref::mac(key.alg, secret, &d);
+            // the MAC field sits after: name, type(2) class(2) ttl(4) rdlen(2), alg name, time(6) fudge(2) macsize(2)
+            let pos = wire.len() - (t.mac.len() + 2 + 2 + 2 + t.other.len());
+            if wire[pos..pos + mac.len()] == t.mac[..] {
+                wire[pos..pos + mac.len()].copy_from_slice(&mac);
+            } else {
+                return Ok(None);
+            }
+            label = "re-signed";
+        }
+        ReplyEdit::Trailing(n) => {
+            wire.extend(std::iter::repeat(0xAB).take(*n as usize));
+            label = "trailing-octets";
+        }
+    }
+    Ok(Some((wire, label)))
+}
+
 fn client_body(c: &ClientCase, rec: &mut Rec) -> CaseResult {
     use hickory_net::xfer::{DnsMultiplexer, DnsRequestSender};
     use hickory_proto::op::{DnsRequest, DnsRequestOptions};
@@ -1121,54 +1173,10 @@ fn client_body(c: &ClientCase, rec: &mut Rec) -> CaseResult {
     let r = split_reply(&genuine)?;
 
     // the edit
-    let mut wire = genuine.clone();
-    let mut label = "none";
-    match &c.edit {
-        ReplyEdit::None => {}
-        ReplyEdit::BitFlip(p) => {
-            let bit = *p as usize % (wire.len() * 8);
-            wire[bit / 8] ^= 1 << (7 - bit % 8);
-            label = "bit-flip";
-        }
-        ReplyEdit::ByteSet(p, v) => {
-            let i = *p as usize % wire.len();
-            if wire[i] == *v {
-                wire[i] ^= 0xff;
-            } else {
-                wire[i] = *v;
-            }
-            label = "byte-set";
-        }
-        ReplyEdit::TsigRemoved => {
-            wire.truncate(r.tsig_start);
-            let ar = u16::from_be_bytes([wire[10], wire[11]]).saturating_sub(1);
-            wire[10..12].copy_from_slice(&ar.to_be_bytes());
-            label = "tsig-removed";
-        }
-        ReplyEdit::ResignedWrongSecret | ReplyEdit::ResignedWrongRequestMac => {
-            let Some(t) = &r.tsig else {
-                vfail!("reply-to-signed-request-not-signed", "reply {}", crate::core::hexser::to_hex(&genuine));
-            };
-            let (secret, rmac): (&[u8], Vec<u8>) = if matches!(c.edit, ReplyEdit::ResignedWrongSecret) { (SX, req_mac.clone()) } else { (S1, req_mac.iter().map(|b| b ^ 0x55).collect()) };
-            let Ok(p) = tsig_ref::parse(&genuine) else { vfail!("harness-reply-unparseable", "{}", crate::core::hexser::to_hex(&genuine)) };
-            let rr = p.rrs.last().unwrap();
-            let d = tsig_ref::response_digest(&rmac, &genuine, rr.start, t);
-            let mac = tsig_ref::mac(key.alg, secret, &d);
-            // the MAC field sits after: name, type(2) class(2) ttl(4) rdlen(2), alg name, time(6) fudge(2) macsize(2)
-            let pos = wire.len() - (t.mac.len() + 2 + 2 + 2 + t.other.len());
-            if wire[pos..pos + mac.len()] == t.mac[..] {
-                wire[pos..pos + mac.len()].copy_from_slice(&mac);
-            } else {
-                rec.discard("harness-could-not-locate-the-mac-field");
-                return Ok(());
-            }
-            label = "re-signed";
-        }
-        ReplyEdit::Trailing(n) => {
-            wire.extend(std::iter::repeat(0xAB).take(*n as usize));
-            label = "trailing-octets";
-        }
-    }
+    let Some((wire, label)) = apply_edit(&c.edit, &genuine, &r, &req_mac, &key)? else {
+        rec.discard("harness-could-not-locate-the-mac-field");
+        return Ok(());
+    };
     rec.class(format!("reply-edit={label}"));
     rec.class(format!("kind={kind:?}"));
     let authentic = reply_authentic_ref(&wire, &req_mac, &key);
@@ -1210,6 +1218,248 @@ fn client_body(c: &ClientCase, rec: &mut Rec) -> CaseResult {
         );
     } else if authentic {
         rec.class(if delivered.iter().any(|d| d.is_ok()) { "edited-but-authentic:delivered" } else { "edited-but-authentic:refused" });
+    }
+    Ok(())
+}
+
+// ---------------------------------------------------------------------------------------------
+// the same over UDP: the real `UdpClientStream::with_signer` on the simulated runtime. The
+// stream looks at up to three datagrams per request, so the reply is a *sequence* of datagrams
+// (each the genuine reply or an edit of it): whatever the caller receives as Ok must be
+// authentic, whichever datagram of the sequence it is.
+
+#[derive(Clone, Debug, Serialize, Deserialize)]
+pub struct UdpClientCase {
+    pub update: bool,
+    pub alg: Alg,
+    pub edns: bool,
+    pub id: u16,
+    pub edits: Vec<ReplyEdit>,
+    pub gap_ms: u16,
+}
+
+fn udp_client_case(_t: Tier) -> impl Strategy<Value = UdpClientCase> {
+    let edit = || {
+        prop_oneof![
+            3 => Just(ReplyEdit::None),
+            4 => any::<u32>().prop_map(ReplyEdit::BitFlip),
+            1 => (any::<u32>(), any::<u8>()).prop_map(|(p, v)| ReplyEdit::ByteSet(p, v)),
+            3 => Just(ReplyEdit::TsigRemoved),
+            1 => Just(ReplyEdit::ResignedWrongSecret),
+            1 => Just(ReplyEdit::ResignedWrongRequestMac),
+            1 => (1u8..8).prop_map(ReplyEdit::Trailing),
+        ]
+    };
+    (any::<bool>(), alg(), any::<bool>(), any::<u16>(), proptest::collection::vec(edit(), 1..=3), 0u16..50).prop_map(|(update, alg, edns, id, edits, gap_ms)| UdpClientCase {
+        update,
+        alg,
+        edns,
+        id,
+        edits,
+        gap_ms,
+    })
+}
+
+fn ns_addr() -> std::net::SocketAddr {
+    "192.0.2.53:53".parse().unwrap()
+}
+
+#[derive(Default)]
+struct ScriptNetState {
+    sent: Vec<Vec<u8>>,
+    /// (arrival time in virtual nanos, octets), in order
+    queue: Vec<(u64, Vec<u8>)>,
+    next: usize,
+    script: Vec<(u64, Vec<u8>)>,
+}
+
+/// one UDP socket; after the first transmission the scripted datagrams arrive from the server
+struct ScriptNet {
+    st: std::cell::RefCell<ScriptNetState>,
+}
+
+impl crate::sim::SimNet for ScriptNet {
+    fn udp_bind(&self, _local: std::net::SocketAddr, _server: std::net::SocketAddr) -> std::io::Result<u64> {
+        Ok(0)
+    }
+    fn udp_send(&self, _sock: u64, buf: &[u8], _target: std::net::SocketAddr) -> std::io::Result<usize> {
+        let mut st = self.st.borrow_mut();
+        let now = crate::sim::now_nanos();
+        if st.sent.is_empty() {
+            st.queue = st.script.iter().map(|(d, b)| (now + d, b.clone())).collect();
+        }
+        st.sent.push(buf.to_vec());
+        Ok(buf.len())
+    }
+    fn udp_poll_recv(&self, _sock: u64, now: u64) -> crate::sim::RecvPoll {
+        let mut st = self.st.borrow_mut();
+        if st.sent.is_empty() {
+            return crate::sim::RecvPoll::Never;
+        }
+        match st.queue.get(st.next).cloned() {
+            None => crate::sim::RecvPoll::Never,
+            Some((at, b)) if at <= now => {
+                st.next += 1;
+                crate::sim::RecvPoll::Ready(b, ns_addr())
+            }
+            Some((at, _)) => crate::sim::RecvPoll::At(at),
+        }
+    }
+}
+
+/// one request through UdpClientStream::with_signer against the scripted datagrams; returns the
+/// octets sent and what the caller got
+fn udp_exchange(now: u64, m: &Message, key: &Key, script: Vec<(u64, Vec<u8>)>) -> Result<(Vec<Vec<u8>>, Option<Result<Vec<u8>, String>>), Fail> {
+    use hickory_net::udp::UdpClientStream;
+    use hickory_net::xfer::DnsRequestSender;
+    use hickory_proto::op::{DnsRequest, DnsRequestOptions};
+    let mut sim = crate::sim::Sim::new(now);
+    let net = std::rc::Rc::new(ScriptNet {
+        st: std::cell::RefCell::new(ScriptNetState {
+            script,
+            ..Default::default()
+        }),
+    });
+    sim.set_net(net.clone());
+    let mut stream = UdpClientStream::builder(ns_addr(), crate::sim::SimRt)
+        .with_timeout(Some(std::time::Duration::from_millis(900)))
+        .with_max_retries(0)
+        .with_signer(Some(hickory_signer(key, 300)))
+        .build();
+    let request = DnsRequest::new(m.clone(), DnsRequestOptions::default());
+    let fut = async move {
+        let mut rs = stream.send_message(request);
+        rs.next().await
+    };
+    let out = match catch(move || sim.run(fut, 20_000)) {
+        Ok(Ok(v)) => v,
+        Ok(Err(e)) => vfail!("client-udp-no-completion", "simulation ended with {e:?}"),
+        Err(p) => return Err(panic_fail(&p)),
+    };
+    let sent = net.st.borrow().sent.clone();
+    Ok((sent, out.map(|r| r.map(|resp| resp.as_buffer().to_vec()).map_err(|e| e.to_string()))))
+}
+
+fn udp_client_body(c: &UdpClientCase, rec: &mut Rec) -> CaseResult {
+    let now = 1_700_000_000u64;
+    let key = k("k1.keys.test.", S1, c.alg);
+    let kind = if c.update { Kind::Update } else { Kind::AxfrAllowSigned };
+    let origin = to_name(&updates::origin());
+    let mut m = if c.update {
+        let mut m = Message::new(c.id, MessageType::Query, OpCode::Update);
+        let mut q = Query::new(origin, RecordType::SOA);
+        q.set_query_class(DNSClass::IN);
+        m.add_query(q);
+        m.add_authority(Record::from_rdata(name_from_str("new.zone.test."), 300, RData::A(A::new(192, 0, 2, 77))));
+        m
+    } else {
+        let mut m = Message::new(c.id, MessageType::Query, OpCode::Query);
+        m.add_query(Query::new(origin, RecordType::AXFR));
+        m
+    };
+    if c.edns {
+        let mut e = Edns::new();
+        e.set_max_payload(1232);
+        m.set_edns(e);
+    }
+
+    // first pass, nothing comes back: what does the stream put on the wire?
+    let (sent, _) = udp_exchange(now, &m, &key, vec![])?;
+    vensure!(sent.len() == 1, "harness-expects-one-transmission", "{} transmissions without retries", sent.len());
+    let request = sent[0].clone();
+    let req_auth = {
+        let _clock = VirtualClock::start(now);
+        tsig_ref::authorised_ref(&request, now, std::slice::from_ref(&key))
+    };
+    vensure!(
+        req_auth.verdict == AuthRef::Authorised,
+        "client-udp-request-not-signed-per-rfc8945",
+        "reference says {:?} for the request the UDP stream signed: {}",
+        req_auth.verdict,
+        crate::core::hexser::to_hex(&request)
+    );
+    let req_mac = req_auth.tsig.as_ref().map(|t| t.mac.clone()).unwrap_or_default();
+
+    // the server's reply to exactly those octets
+    let genuine = {
+        let _clock = VirtualClock::start(now);
+        let mut h = build_handler(&base_zone(), kind.policy()).map_err(|e| Fail::new("harness-init", e))?;
+        h.set_tsig_signers(vec![hickory_signer(&key, 300)]);
+        let h = Arc::new(h);
+        let mut catalog = Catalog::new();
+        catalog.upsert(h.origin().clone(), vec![h.clone()]);
+        let fd = VerifFrontDoor::new(catalog, Vec::<ipnet::IpNet>::new(), Vec::<ipnet::IpNet>::new());
+        let (tx, mut srx) = BufDnsStreamHandle::new(src_addr());
+        if let Err(p) = catch(|| block_on(fd.handle(request.clone(), src_addr(), Protocol::Tcp, tx))) {
+            return Err(panic_fail(&p));
+        }
+        let mut replies = Vec::new();
+        while let Some(Some(m)) = srx.next().now_or_never() {
+            replies.push(m.into_parts().0);
+        }
+        vensure!(replies.len() == 1, "harness-expects-one-reply-message", "{} reply messages", replies.len());
+        replies.remove(0)
+    };
+    let r = split_reply(&genuine)?;
+
+    let mut script = Vec::new();
+    let mut labels = Vec::new();
+    let mut auth = Vec::new();
+    let mut at = 0u64;
+    for e in &c.edits {
+        let Some((wire, label)) = apply_edit(e, &genuine, &r, &req_mac, &key)? else {
+            rec.discard("harness-could-not-locate-the-mac-field");
+            return Ok(());
+        };
+        at += (1 + c.gap_ms as u64) * 1_000_000;
+        auth.push(reply_authentic_ref(&wire, &req_mac, &key));
+        labels.push(label);
+        script.push((at, wire));
+    }
+    rec.class(format!("datagrams={}", script.len()));
+    rec.class(format!("kind={kind:?}"));
+    let first_genuine = auth.iter().position(|a| *a);
+    rec.class(match first_genuine {
+        Some(0) => "first-datagram-authentic",
+        Some(_) => "authentic-datagram-after-a-forged-one",
+        None if script.len() > 1 => "several-forged-datagrams",
+        None => "one-forged-datagram",
+    });
+    rec.nontrivial();
+
+    let (sent2, out) = udp_exchange(now, &m, &key, script.clone())?;
+    if sent2.first() != Some(&request) {
+        rec.discard("harness-request-not-reproducible");
+        return Ok(());
+    }
+    let ctx = || {
+        format!(
+            "{kind:?} {:?} datagrams {:?} (authentic per reference: {:?}); genuine reply {}; caller got {:?}",
+            c.alg,
+            labels,
+            auth,
+            crate::core::hexser::to_hex(&genuine),
+            out.as_ref().map(|o| o.as_ref().map(|b| crate::core::hexser::to_hex(b)).map_err(|e| e.clone()))
+        )
+    };
+    if let Some(Ok(b)) = &out {
+        vensure!(
+            reply_authentic_ref(b, &req_mac, &key),
+            "client-udp-delivers-unauthentic-reply",
+            "the caller of the signing UDP stream received a reply that is not authentic per RFC 8945 5.3; {}",
+            ctx()
+        );
+        rec.class("caller-got-a-reply");
+    } else {
+        rec.class("caller-got-an-error");
+    }
+    if c.edits.len() == 1 && matches!(c.edits[0], ReplyEdit::None) {
+        vensure!(
+            matches!(out, Some(Ok(_))),
+            "client-udp-withholds-the-genuine-reply",
+            "the unmodified reply, alone on the wire, did not reach the caller; {}",
+            ctx()
+        );
     }
     Ok(())
 }
@@ -1282,6 +1532,7 @@ pub fn check() -> Option<Check> {
     let complete = prop("unmodified_requests", 12_000, 100_000, unmodified_case, body);
     let configured = prop("configured_from_files", 12_000, 100_000, configured_case, body);
     let client = prop("client_multiplexer_replies", 40_000, 1_000_000, client_case, client_body);
+    let client_udp = prop("client_udp_replies", 20_000, 500_000, udp_client_case, udp_client_body);
     // every single-bit flip of the whole request, for each kind x algorithm (EDNS on for SHA-256)
     let flips = enumerate(
         "every_request_bit_flip",
@@ -1324,13 +1575,13 @@ pub fn check() -> Option<Check> {
     Some(Check {
         id: "C13",
         level: "exploration",
-        rule: "requests built and TSIG-signed by hickory's client (UPDATE with/without prerequisite; AXFR under Deny/AllowAll/AllowSigned; HMAC-SHA256/384/512; with/without EDNS; key sets: none, one, two, same name/other secret, same name twice, other name/same secret, other algorithm; Time Signed normal, < fudge, around 2^32; fudge 0, 1, 300, 65535) x server clock {t-fudge-1, t-fudge, inside, t, t+fudge, t+fudge+1, far} x mutation {bit flip, byte set, section-count set/shift, TSIG field edit with original or recomputed MAC (key name, algorithm, time, fudge, MAC truncated/extended/flipped, original ID, error, other data, class, TTL), TSIG removed/duplicated/not last, trailing octets, header ID, re-signed by the reference signer}; every_request_bit_flip enumerates all single-bit flips of 12 base requests, every_mac_length all MAC lengths; for unmodified in-window requests every single-bit flip of the reply is given to TSigVerifier; configured_from_files runs unmodified / unsigned / mutated requests against a handler built by SqliteZoneHandler::try_from_config from a zone file, key files and a journal in a scratch directory, half of them after a restart that recovers the zone from the journal (same oracle: policy and keys must survive the configuration path); client_multiplexer_replies: the request leaves through the real DnsMultiplexer::with_signer, the server's reply returns through it unmodified, bit-flipped, byte-set, with the TSIG removed, re-signed with another secret or for another request MAC, or with trailing octets: whatever reaches the caller as Ok must carry the RFC 8945 5.3 response MAC, and the unmodified reply must arrive. Non-trivial = distinct case AND (the mutation touches a signed octet, the MAC or a TSIG field, OR the clock is within 1 of a fudge edge, OR the completeness clause incl. the reply-flip sweep ran)",
+        rule: "requests built and TSIG-signed by hickory's client (UPDATE with/without prerequisite; AXFR under Deny/AllowAll/AllowSigned; HMAC-SHA256/384/512; with/without EDNS; key sets: none, one, two, same name/other secret, same name twice, other name/same secret, other algorithm; Time Signed normal, < fudge, around 2^32; fudge 0, 1, 300, 65535) x server clock {t-fudge-1, t-fudge, inside, t, t+fudge, t+fudge+1, far} x mutation {bit flip, byte set, section-count set/shift, TSIG field edit with original or recomputed MAC (key name, algorithm, time, fudge, MAC truncated/extended/flipped, original ID, error, other data, class, TTL), TSIG removed/duplicated/not last, trailing octets, header ID, re-signed by the reference signer}; every_request_bit_flip enumerates all single-bit flips of 12 base requests, every_mac_length all MAC lengths; for unmodified in-window requests every single-bit flip of the reply is given to TSigVerifier; configured_from_files runs unmodified / unsigned / mutated requests against a handler built by SqliteZoneHandler::try_from_config from a zone file, key files and a journal in a scratch directory, half of them after a restart that recovers the zone from the journal (same oracle: policy and keys must survive the configuration path); client_multiplexer_replies: the request leaves through the real DnsMultiplexer::with_signer, the server's reply returns through it unmodified, bit-flipped, byte-set, with the TSIG removed, re-signed with another secret or for another request MAC, or with trailing octets: whatever reaches the caller as Ok must carry the RFC 8945 5.3 response MAC, and the unmodified reply must arrive; client_udp_replies: the same through the real UdpClientStream::with_signer on the simulated runtime, where the reply is a sequence of 1-3 datagrams (each the genuine reply or one of those edits) because the stream examines up to three datagrams per request: whichever datagram the caller ends up with must be authentic. Non-trivial = distinct case AND (the mutation touches a signed octet, the MAC or a TSIG field, OR the clock is within 1 of a fudge edge, OR the completeness clause incl. the reply-flip sweep ran)",
         assumptions: vec![
             "octets RFC 8945 leaves outside the MAC (header ID via original-ID substitution, TSIG CLASS and TTL which enter the digest as constants, case of key/algorithm names, octets after the last counted record) may change without the request or reply counting as modified",
             "a key set with the same key name configured twice is outside the completeness clause (recorded)",
             "answers to non-AXFR questions (e.g. an UPDATE whose opcode was flipped to QUERY) are public data, not 'zone data returned'",
             "server clock = interposed CLOCK_REALTIME read by Time::current_time()",
         ],
-        subs: vec![mutations, complete, configured, client, flips, trunc],
+        subs: vec![mutations, complete, configured, client, client_udp, flips, trunc],
     })
 }
